@@ -1112,7 +1112,7 @@ func newMethod(obj Value, f *funcT) Value {
 	if f.Variadic {
 		vArgs = -vArgs
 	}
-	return newFunc(vArgs, f.Rets, func(v *VM) {
+	m := newFunc(vArgs, f.Rets, func(v *VM) {
 		args := make([]Value, xArgs)
 		copy(args, v.stack[len(v.stack)-xArgs:])
 		v.stack = v.stack[:len(v.stack)-xArgs]
@@ -1120,6 +1120,8 @@ func newMethod(obj Value, f *funcT) Value {
 		v.stack = append(v.stack, args...)
 		f.Value(v)
 	})
+	m.getFunc().VariadicType = f.VariadicType // surplus arguments are packed with the declared element type
+	return m
 }
 
 func (s *structT) SetIndex(k int, v Value) {
